@@ -263,6 +263,31 @@ def rename_variant(lay):
     return {"files": files, "opts": dict(lay["opts"], inputs=[ren(i) for i in lay["opts"]["inputs"]]), "kind": lay["kind"]}
 
 
+def parent_variant(lay):
+    """the same chain expressed with $parent instead of filenames: every layer gets an unrelated two-part name and names its
+    parent explicitly; only for pure filename chains (no directive, no link, one input, no -P) whose documents are maps"""
+    if lay["kind"] not in ("plain",) or len(lay["opts"]["inputs"]) != 1 or lay["opts"].get("P"):
+        return None
+    names = sorted(lay["files"], key=lambda n: n.count("."))
+    if any(k != "reg" for k, _ in lay["files"].values()):
+        return None
+    if any((not x) or not isinstance(x[0], dict) or any(isinstance(d, dict) and "$parent" in d for d in x) for _, x in lay["files"].values()):
+        return None
+    bases = [n.rsplit(".", 1)[0] for n in names]
+    if any(bases[i + 1].rsplit(".", 1)[0] != bases[i] for i in range(len(bases) - 1)):
+        return None          # not one straight chain
+    new = {}
+    files = {}
+    for i, n in enumerate(names):
+        new[n] = "q%d.%s" % (i, n.rsplit(".", 1)[1])
+    for i, n in enumerate(names):
+        docs = [dict(d) if isinstance(d, dict) else d for d in lay["files"][n][1]]
+        if i > 0:
+            docs[0]["$parent"] = "q%d" % (i - 1)
+        files[new[n]] = ("reg", docs)
+    return {"files": files, "opts": dict(lay["opts"], inputs=[new[lay["opts"]["inputs"][0]]]), "kind": "parent_variant"}
+
+
 def run(ctx):
     n = ctx.n(400, 8000)
     rng = core.Rng(ctx.seed)
@@ -280,15 +305,26 @@ def run(ctx):
         d2 = os.path.join(ctx.work, "layr%d" % i)
         write_layout(d2, lv, rng.fork("emit%d" % i))
         res2 = run_bkl(ctx, d2, lv["opts"])
-        return res, res2
+        # the same chain expressed with $parent instead of filenames must print the same bytes too
+        pv = parent_variant(lays[i])
+        res3 = None
+        if pv is not None:
+            d3 = os.path.join(ctx.work, "layp%d" % i)
+            write_layout(d3, pv, rng.fork("emit%d" % i))
+            res3 = run_bkl(ctx, d3, pv["opts"])
+        return res, res2, res3
     results = core.pmap(one, range(n))
     mo = ctx.model(fill_tables(ctx, [model_case(l, fmts) for l in lays]))
     seen, nt = set(), 0
     dist = {}
-    for lay, (res, res2), m in zip(lays, results, mo):
+    for lay, (res, res2, res3), m in zip(lays, results, mo):
         why = judge(lay, res, m)
         if why is None and (res[0], res[1]) != (res2[0], res2[1]):
             why = "renaming the chain changes the output: rc %d/%d" % (res[0], res2[0])
+        if res3 is not None:
+            dist["expressed_with_parent"] = dist.get("expressed_with_parent", 0) + 1
+            if why is None and (res[0], res[1]) != (res3[0], res3[1]):
+                why = "the chain expressed with $parent instead of filenames gives another result: rc %d/%d %r vs %r" % (res[0], res3[0], res[1][:200], res3[1][:200])
         k = lay["kind"] + ("_ok" if m[0] == "ok" else "_err_" + m[1])
         dist[k] = dist.get(k, 0) + 1
         h = core.vhash([sorted((a, b[0], b[1]) for a, b in lay["files"].items()), lay["opts"]])
